@@ -2627,12 +2627,16 @@ impl Translator {
 
     fn get_func_label(&self, st: &mut TranslatorState, desc: FuncDesc) -> Label {
         let func_name = desc.fully_qualified_name(&self.statics);
+        // a lambda whose own type is not generic, created in a generic function, has one instance per type it
+        // captures: the instances need labels of their own
+        let name_taken = st.func_map.values().any(|label| *label == func_name);
         let entry = st.func_map.entry(desc.clone());
         match entry {
             std::collections::hash_map::Entry::Occupied(o) => o.get().clone(),
             std::collections::hash_map::Entry::Vacant(v) => {
                 st.funcs_to_generate.push(desc.clone());
                 let label = match &desc.overload_ty {
+                    None if name_taken => make_label(&func_name),
                     None => func_name.clone(),
                     Some(overload_ty) => {
                         let monoty = overload_ty.monotype().unwrap();
